@@ -168,3 +168,80 @@ theorem validate_never_out_of_fuel (b : Bool) (ch : Chain) : validate b ch ≠ .
     omega
 
 end Nject
+
+namespace Nject
+
+/-! ### `eliminateUnused`: the work list is used up within the fuel -/
+
+/-- entries on the work list + what the providers still included can add to it -/
+def elimMeasure (check : List Nat) (ch : Chain) : Nat :=
+  check.length + (ch.map fun f => if f.inc then f.uses.length else 0).sum
+
+theorem sum_map_set {α} (g : α → Nat) : ∀ (l : List α) (i : Nat) (x : α) (hi : i < l.length),
+    ((l.set i x).map g).sum + g l[i] = (l.map g).sum + g x
+  | [], i, _, hi => by simp at hi
+  | a :: l, 0, x, _ => by simp; omega
+  | a :: l, i + 1, x, hi => by
+    have hi' : i < l.length := by simpa using hi
+    have := sum_map_set g l i x hi'
+    simp only [List.set_cons_succ, List.map_cons, List.sum_cons, List.getElem_cons_succ]
+    omega
+
+theorem sum_map_upd (φ : IP → Nat) (ch : Chain) (i : Nat) (hi : i < ch.length) (g' : IP → IP) :
+    ((ch.upd i g').map φ).sum + φ (ch.get i) = (ch.map φ).sum + φ (g' (ch.get i)) := by
+  unfold Chain.upd
+  have := sum_map_set φ ch i (g' (ch.get i)) hi
+  rw [← get_eq_getElem ch i hi] at this
+  exact this
+
+theorem elimMeasure_upd (check : List Nat) (ch : Chain) (i : Nat) (hi : i < ch.length) (hinc : (ch.get i).inc = true) :
+    elimMeasure (check ++ (ch.get i).uses) (ch.upd i fun f => { f with inc := false, cannot := true, excluded := true })
+      = elimMeasure check ch := by
+  unfold elimMeasure
+  have := sum_map_upd (fun f : IP => if f.inc then f.uses.length else 0) ch i hi
+    (fun f => { f with inc := false, cannot := true, excluded := true })
+  simp only [hinc, if_true, Bool.false_eq_true, if_false, Nat.add_zero] at this
+  rw [List.length_append]
+  omega
+
+/-- **with at least `elimMeasure` units of fuel the result does not depend on the fuel** -/
+theorem eliminateUnused_fuel : ∀ (f1 f2 : Nat) (check : List Nat) (ch : Chain),
+    elimMeasure check ch ≤ f1 → elimMeasure check ch ≤ f2 → eliminateUnused f1 check ch = eliminateUnused f2 check ch
+  | f1, f2, [], ch, _, _ => by
+    cases f1 <;> cases f2 <;> simp [eliminateUnused]
+  | 0, _, i :: check, ch, h1, _ => by simp [elimMeasure] at h1
+  | _ + 1, 0, i :: check, ch, _, h2 => by simp [elimMeasure] at h2
+  | f1 + 1, f2 + 1, i :: check, ch, h1, h2 => by
+    have hm : elimMeasure (i :: check) ch = elimMeasure check ch + 1 := by simp [elimMeasure]; omega
+    simp only [eliminateUnused]
+    split
+    · exact eliminateUnused_fuel f1 f2 check ch (by omega) (by omega)
+    · rename_i hskip
+      split
+      · exact eliminateUnused_fuel f1 f2 check ch (by omega) (by omega)
+      · have hinc : (ch.get i).inc = true := by
+          cases hc : (ch.get i).inc with
+          | true => rfl
+          | false => simp [hc] at hskip
+        have hi : i < ch.length := by
+          apply Classical.byContradiction
+          intro hn
+          rw [get_default_of_ge ch i hn] at hinc
+          cases hinc
+        have := elimMeasure_upd check ch i hi hinc
+        exact eliminateUnused_fuel f1 f2 _ _ (by omega) (by omega)
+
+theorem elimMeasure_range_le (ch : Chain) : elimMeasure (List.range ch.length) ch ≤ ch.length + (ch.map (·.uses.length)).sum := by
+  unfold elimMeasure
+  have : ∀ l : Chain, (l.map fun f => if f.inc then f.uses.length else 0).sum ≤ (l.map (·.uses.length)).sum := by
+    intro l
+    induction l with
+    | nil => simp
+    | cons a l ih =>
+      simp only [List.map_cons, List.sum_cons]
+      split <;> omega
+  have := this ch
+  simp only [List.length_range]
+  omega
+
+end Nject
